@@ -30,6 +30,7 @@ META = {
                     "hashed"],
 }
 META["explanation"] += '  long/*: four chromosomes (two chains, a single bubble, a single segment) in four requested orders; (BO, NO) must be unique and strictly increasing, also across the per-chromosome files.'
+META["explanation"] += '  ids-from-source/*: two small chromosomes whose segment ids are taken from the string constants of order_gfa.py and gfa.py (Name, chr1, BO, s, b, S, L, ... with and without digits).'
 
 NODES = [("t0", "AAC", 0), ("r0", "GGT", 3), ("p0", "AC", 6), ("q0", "TTTT", None), ("r1", "CA", 8), ("u0", "G", 10)]
 STAGS = [[], ["xx:i:5", "yy:Z:hello"], ["zz:Z:a:b"]]
